@@ -139,10 +139,11 @@ def hir_sites(root):
 class Ctx:
     """Per-function context: let bindings (immutable locals), assignment counts, constants."""
 
-    def __init__(self, body, consts, fn_tables=None):
+    def __init__(self, body, consts, fn_tables=None, field_inv=None):
         self.body = body
         self.consts = consts            # def path -> int value
         self.fn_tables = fn_tables or {}
+        self.field_inv = field_inv or {}   # (owner type path, field) -> (lo, hi): inductive invariants (rule `invariants` in C04)
         self.lets = {}                  # (name, id) -> init expr
         self.assigned = set()           # (name, id) assigned after declaration
         self.order = {}
@@ -216,7 +217,37 @@ def array_len(ty, consts):
     return None
 
 
+def owner_type(e):
+    """Type path of the value a field is read from (`&mut Parser<C>` -> `anstyle_parse::Parser`)."""
+    t = (hir.simp(e).get("ty") or "").lstrip("&").replace("mut ", "").strip()
+    return t.split("<", 1)[0]
+
+
 def interval(e, cx, refine, depth=0, at=None):
+    """Sound interval of an integer expression, or None when unknown (see _interval); on top of it: a field with an inductive
+    invariant is inside the invariant at every program point, and values excluded by `!=` tests / earlier match arms trim the ends."""
+    r = _interval(e, cx, refine, depth, at)
+    e1 = hir.simp(e)
+    if not isinstance(e1, dict):
+        return r
+    if e1.get("k") == "field" and cx.field_inv:
+        inv = cx.field_inv.get((owner_type(e1["e"]), e1["name"]))
+        if inv is not None:
+            r = inv if r is None else (max(r[0], inv[0]), min(r[1], inv[1]))
+    if r is not None and hasattr(refine, "excluded") and e1.get("k") in ("local", "field", "un"):
+        ps = hir.place_str(e1)
+        ex = refine.excluded(ps, at if at is not None else e1) if ps else set()
+        if ex:
+            lo, hi = r
+            while lo in ex and lo <= hi:
+                lo += 1
+            while hi in ex and hi >= lo:
+                hi -= 1
+            r = (lo, hi)
+    return r
+
+
+def _interval(e, cx, refine, depth=0, at=None):
     """Sound interval of an integer expression, or None when unknown.  `refine` is a Refinements object (or {}); `at` is the
     node at whose program point the expression is evaluated (defaults to the expression itself)."""
     if depth > 40:
@@ -336,7 +367,9 @@ class Refinements:
         self.frames = frames
         self.site = site_node
         self.cands = []   # (place, lo, hi, guard_pos, frame index)
+        self.excl = []    # (place, value, guard_pos, frame index)
         self._collect()
+        self._collect_exclusions()
 
     def _off_path(self, a, upto_fi=None):
         """Is assignment `a` inside a sibling arm / the other branch of a frame enclosing the site?"""
@@ -376,14 +409,83 @@ class Refinements:
         pos = self.cx.order.get(id(at_node), self.cx.order.get(id(self.site), 10 ** 9)) if at_node is not None else 10 ** 9
         lo, hi = -(10 ** 40), 10 ** 40
         found = False
-        for (pl, l, h, gp, fi) in self.cands:
-            if pl == place and gp <= pos and self._valid(place, gp, fi, pos, at_node):
-                lo, hi = max(lo, l), min(hi, h)
-                found = True
+        names = [place] + (self._copies_of(place, pos, at_node) if "." in (place or "") else [])
+        for nm in names:
+            for (pl, l, h, gp, fi) in self.cands:
+                if pl == nm and gp <= pos and self._valid(nm, gp, fi, pos, at_node):
+                    lo, hi = max(lo, l), min(hi, h)
+                    found = True
         return (lo, hi) if found else None
 
     def __contains__(self, place):
         return self.get(place, self.site) is not None
+
+    def _copies_of(self, place, pos, at_node):
+        """Immutable locals bound to a read of `place` (`let i = self.n;`) while `place` has not been written since: what a test
+        says about the copy it says about the place."""
+        cx = self.cx
+        out = []
+        for (name, lid), init in cx.lets.items():
+            if (name, lid) in cx.assigned or not isinstance(init, dict):
+                continue
+            iw = _peel_widening(init)
+            if iw.get("k") in ("field", "un") and hir.place_str(iw) == place:
+                lp = cx.order.get(id(init), -1)
+                if lp <= pos and self._valid(place, lp, -1, pos, at_node):
+                    out.append(name)
+        return out
+
+    def excluded(self, place, at_node):
+        pos = self.cx.order.get(id(at_node), self.cx.order.get(id(self.site), 10 ** 9)) if at_node is not None else 10 ** 9
+        names = [place] + self._copies_of(place, pos, at_node)
+        out = set()
+        for nm in names:
+            out |= {v for (pl, v, gp, fi) in self.excl if pl == nm and gp <= pos and self._valid(nm, gp, fi, pos, at_node)}
+        return out
+
+    def _collect_exclusions(self):
+        cx = self.cx
+
+        def ints_of(p):
+            try:
+                if p.get("k") in ("lit", "prange", "por"):
+                    return hir.pat_ints(p)
+                if p.get("k") == "ppath" and isinstance(cx.consts.get(p.get("path")), int):
+                    return {cx.consts[p["path"]]}
+            except Unrecognised:
+                pass
+            return None
+        for fi, f in enumerate(self.frames):
+            if f.get("kind") == "if":
+                c = hir.simp(f["expr"])
+                if c.get("k") == "bin" and c.get("op") in ("Eq", "Ne") and "callee" not in c and (c["op"] == "Ne") == bool(f["val"]):
+                    gp = cx.last.get(id(c), cx.order.get(id(c), 0))
+                    for a, b in ((c["l"], c["r"]), (c["r"], c["l"])):
+                        aw = _peel_widening(a)
+                        pl = hir.place_str(aw) if aw.get("k") in ("local", "field", "un") else None
+                        iv = _interval(b, cx, {}, at=c)
+                        if pl and iv is not None and iv[0] == iv[1]:
+                            self.excl.append((pl, iv[0], gp, fi))
+            elif f.get("kind") == "arm" and f["pat"].get("k") in ("pwild", "pbind") and not f.get("guard"):
+                sc = _peel_widening(f["scrut"])
+                pl = hir.place_str(sc) if sc.get("k") in ("local", "field", "un") else None
+                gp = cx.last.get(id(hir.simp(f["scrut"])), cx.order.get(id(hir.simp(f["scrut"])), 0))
+                if pl:
+                    for q in f.get("prior", []):
+                        for v in ints_of(q) or ():
+                            self.excl.append((pl, v, gp, fi))
+                    if f["pat"].get("k") == "pbind" and f["pat"].get("name"):
+                        for q in f.get("prior", []):      # the binding itself carries the same exclusions
+                            for v in ints_of(q) or ():
+                                self.excl.append((f["pat"]["name"], v, gp, fi))
+            elif f.get("kind") == "not-arms":
+                sc = _peel_widening(f["scrut"])
+                pl = hir.place_str(sc) if sc.get("k") in ("local", "field", "un") else None
+                gp = cx.last.get(id(f["match"]), cx.order.get(id(f["match"]), 0))
+                if pl:
+                    for q in f.get("pats", []):
+                        for v in ints_of(q) or ():
+                            self.excl.append((pl, v, gp, fi))
 
     def _add(self, place, lo, hi, gp, fi):
         if place is not None:
